@@ -282,8 +282,8 @@ def readF32 (o : Opts) (bs : Bytes) (pos : Nat) : RR Nat :=
       match getValue 8 bs (pos + 1) with
       | .error e => .error e
       | .ok (u, p) =>
-        -- Convert::Detail::To(double, float): range test, then static_cast<float>
-        convertByPolicy (if Ieee.inFloatRange u then some (Ieee.f64ToF32 u) else none) o p
+        -- Convert::Detail::To(double, float): non-finite or in range, then static_cast<float>
+        convertByPolicy (if Ieee.toFloatOk u then some (Ieee.f64ToF32 u) else none) o p
     else mismatchTail o bs pos
 
 def readF64 (o : Opts) (bs : Bytes) (pos : Nat) : RR Nat :=
